@@ -30,6 +30,7 @@ type target struct {
 	ret             string            // Lean result type
 	outcome         bool              // result is an Outcome (error-returning callbacks): nil -> .cont, ErrStopIteration -> .stop, a call -> .call
 	state           string            // when non-empty: the receiver is mutated; the definition returns (receiver, result)
+	optional        bool              // the Go result is a pointer: nil -> none, a value -> some
 }
 
 var targets = []target{
@@ -39,13 +40,23 @@ var targets = []target{
 	{dir: "internal", name: "compareInt64", lean: "compareInt64", params: map[string]string{"v1": "Int", "v2": "Int"}, ret: "Int"},
 	{dir: "internal", name: "compareUint64", lean: "compareUint64", params: map[string]string{"v1": "Int", "v2": "Int"}, ret: "Int"},
 	{dir: "util", name: "BoolToInt", lean: "BoolToInt", params: map[string]string{"v": "Bool"}, ret: "Int"},
+	{dir: ".", name: "unaryCriteriaToRange", lean: "unaryCriteriaToRange", params: map[string]string{"c": "GUnary"}, ret: "Option GRange", optional: true},
 	{dir: ".", recv: "skipLimitNode", name: "Callback", lean: "skipLimitNode_Callback", params: map[string]string{"nd": "GSkipLimit", "doc": ""}, ret: "Outcome", outcome: true, state: "nd"},
 }
 
 var structs = map[string][][2]string{
 	"GRange":     {{"Start", "Value"}, {"End", "Value"}, {"StartIncluded", "Bool"}, {"EndIncluded", "Bool"}},
 	"GSkipLimit": {{"skipped", "Int"}, {"consumed", "Int"}, {"skip", "Int"}, {"limit", "Int"}},
+	// query.UnaryCriteria: the operator as the NAME of its constant, the operand as the model's Operand (a literal or a field reference)
+	"GUnary": {{"OpType", "String"}, {"Field", "Bytes"}, {"Value", "Operand"}},
 }
+
+// named constants of the query package (an `int` enumeration in Go): translated to their names
+var namedConsts = map[string]bool{"query.ExistsOp": true, "query.EqOp": true, "query.NeqOp": true, "query.GtOp": true, "query.GtEqOp": true,
+	"query.LtOp": true, "query.LtEqOp": true, "query.LikeOp": true, "query.InOp": true, "query.ContainsOp": true, "query.FunctionOp": true}
+
+// calls with a model counterpart, by the Lean type of their argument
+var knownCalls = map[string]string{"isFieldReference": "Operand.isRef"}
 
 // Go composite literal type -> generated structure
 var literalTypes = map[string]string{"Range": "GRange", "index.Range": "GRange"}
@@ -76,6 +87,9 @@ func (x *tr) typeOf(e ast.Expr) string {
 		return x.types[v.Name]
 	case *ast.SelectorExpr:
 		if id, ok := v.X.(*ast.Ident); ok {
+			if namedConsts[id.Name+"."+v.Sel.Name] {
+				return "String"
+			}
 			if st, ok := x.types[id.Name]; ok {
 				for _, f := range structs[st] {
 					if f[0] == v.Sel.Name {
@@ -91,6 +105,9 @@ func (x *tr) typeOf(e ast.Expr) string {
 	case *ast.CallExpr:
 		if callee(v) == "internal.Compare" {
 			return "Int"
+		}
+		if _, ok := knownCalls[callee(v)]; ok {
+			return "Bool"
 		}
 	case *ast.UnaryExpr:
 		if v.Op == token.NOT {
@@ -141,6 +158,9 @@ func (x *tr) expr(e ast.Expr) string {
 		return "(" + v.Value + " : Int)"
 	case *ast.SelectorExpr:
 		if id, ok := v.X.(*ast.Ident); ok {
+			if namedConsts[id.Name+"."+v.Sel.Name] {
+				return "\"" + v.Sel.Name + "\""
+			}
 			if _, ok := x.types[id.Name]; ok {
 				return id.Name + "." + v.Sel.Name
 			}
@@ -167,6 +187,10 @@ func (x *tr) expr(e ast.Expr) string {
 		case token.EQL, token.NEQ:
 			var s string
 			switch {
+			case isNil(v.Y) && x.typeOf(v.X) == "Operand":
+				s = "Operand.isNilLit " + l
+			case x.typeOf(v.X) == "String" || x.typeOf(v.Y) == "String":
+				s = "(" + l + " == " + r + ")"
 			case isNil(v.Y):
 				s = "Value.isNull " + l
 			case isNil(v.X):
@@ -195,6 +219,9 @@ func (x *tr) expr(e ast.Expr) string {
 		if callee(v) == "internal.Compare" && len(v.Args) == 2 {
 			return "(goCmp " + x.expr(v.Args[0]) + " " + x.expr(v.Args[1]) + ")"
 		}
+		if fn, ok := knownCalls[callee(v)]; ok && len(v.Args) == 1 {
+			return "(" + fn + " " + x.expr(v.Args[0]) + ")"
+		}
 		return x.fail("call %s in an expression", callee(v))
 	case *ast.CompositeLit:
 		tn := ""
@@ -214,7 +241,14 @@ func (x *tr) expr(e ast.Expr) string {
 			if !ok {
 				return x.fail("positional composite literal")
 			}
-			got[kv.Key.(*ast.Ident).Name] = x.expr(kv.Value)
+			val := x.expr(kv.Value)
+			for _, f := range structs[st] {
+				// an operand stored where a plain value is expected: its literal (the function has returned before for references)
+				if f[0] == kv.Key.(*ast.Ident).Name && f[1] == "Value" && x.typeOf(kv.Value) == "Operand" {
+					val = "(Operand.val " + val + ")"
+				}
+			}
+			got[kv.Key.(*ast.Ident).Name] = val
 		}
 		parts := []string{}
 		for _, f := range structs[st] {
@@ -231,6 +265,12 @@ func (x *tr) expr(e ast.Expr) string {
 
 // result renders a returned expression in the function's result type.
 func (x *tr) result(e ast.Expr) string {
+	if x.t.optional {
+		if id, ok := e.(*ast.Ident); ok && id.Name == "nil" {
+			return "none"
+		}
+		return "some " + x.expr(e)
+	}
 	if !x.t.outcome {
 		return x.expr(e)
 	}
@@ -329,6 +369,44 @@ func (x *tr) stmt(s ast.Stmt, ind string, out *[]string) {
 			}
 		}
 		x.assign(v.Lhs[0], x.expr(v.Rhs[0]), v.Tok == token.DEFINE, rt, ind, out)
+	case *ast.SwitchStmt:
+		if v.Init != nil || v.Tag == nil {
+			x.fail("switch with an init statement or without a tag")
+			return
+		}
+		tag := x.expr(v.Tag)
+		first := true
+		var deflt []ast.Stmt
+		for _, cc := range v.Body.List {
+			cl := cc.(*ast.CaseClause)
+			if cl.List == nil {
+				deflt = cl.Body
+				continue
+			}
+			conds := []string{}
+			for _, ce := range cl.List {
+				conds = append(conds, "("+tag+" == "+x.expr(ce)+")")
+			}
+			kw := "else if "
+			if first {
+				kw = "if "
+				first = false
+			}
+			*out = append(*out, ind+kw+strings.Join(conds, " || ")+" then")
+			if len(cl.Body) == 0 {
+				*out = append(*out, ind+"  pure ()")
+			}
+			for _, bs := range cl.Body {
+				if _, isFall := bs.(*ast.BranchStmt); isFall {
+					x.fail("fallthrough / break in a switch")
+				}
+			}
+			x.stmts(cl.Body, ind+"  ", out)
+		}
+		if deflt != nil {
+			*out = append(*out, ind+"else")
+			x.stmts(deflt, ind+"  ", out)
+		}
 	case *ast.IncDecStmt:
 		d := " + 1"
 		if v.Tok == token.DEC {
@@ -393,6 +471,7 @@ func main() {
 		}
 		sb.WriteString("\n")
 	}
+	sb.WriteString("/-- the literal of an operand (null for a field reference) and the test `c.Value == nil` -/\ndef _root_.CV.Operand.val : Operand → Value\n  | .lit v => v\n  | .ref _ => .null\ndef _root_.CV.Operand.isNilLit : Operand → Bool\n  | .lit .null => true\n  | _ => false\n\n")
 	sb.WriteString("/-- what a callback returns: nil (go on), the stop sentinel, or the result of a call the translator leaves opaque -/\ninductive Outcome\n  | cont | stop | call (fn : String)\nderiving DecidableEq, Repr\n\n")
 	status := 0
 	for _, t := range targets {
